@@ -1801,15 +1801,19 @@ MANIFEST_TEXT = {
     "C03": dict(ref="DESIGN.md 7 C03", note=TRUST + " Crash granularity is the storage verb plus the empty-file state.",
                 text="For each scenario the storage-verb trace of the real backup is enumerated: stop before every verb k (and for writes also "
                      "after creating an empty file); on each frozen archive versions/list/restore/validate and a follow-up backup are run and "
-                     "judged by TLC against StitchOf/RestoreOf/snapshots; NoDangling, Format and SnapRestores hold in every intermediate state."),
+                     "judged by TLC against StitchOf/RestoreOf/snapshots; NoDangling, Format and SnapRestores hold in every intermediate state. Runs "
+                     "ended by a failing verb instead of a kill are swept too; what a stopped backup recorded must be a prefix of what it was recording."),
     "C04": dict(ref="DESIGN.md 7 C04", note=TRUST + " A failing verb has no effect (fails before).",
                 text="Every single failing storage verb x {NotFound, AlreadyExists, PermissionDenied, Other} of real backups, plus random "
                      "multi-fault runs; TLC judges every trace: no panic, earlier versions intact, every recorded file entry restores to the "
-                     "source bytes, nothing dangling, complete success implies exact restore."),
+                     "source bytes, nothing dangling, complete success implies exact restore. Archives include ones whose newest version is interrupted and "
+                     "ones where the new blocks belong in d/xyz directories that already hold older blocks."),
     "C05": dict(ref="DESIGN.md 7 C05", note=TRUST + " remove_dir_all is one verb for the hook.",
                 text="Archives from random and directed histories (shared combined blocks, incomplete bands, garbage) x delete sets x "
                      "{dry, real, crash at every verb, every failing read/list/metadata verb}; TLC judges per-verb (gc removes only requested "
-                     "bands, unreferenced blocks, its lock) and at return (exactly the requested bands gone, present blocks = referenced)."),
+                     "bands, unreferenced blocks, its lock) and at return (exactly the requested bands gone, present blocks = referenced). Archives include "
+                     "versions with old-style tails (no hunk count), kills inside the recursive removal of a version, and versions whose unshared "
+                     "blocks share d/xyz directories with blocks that must stay."),
     "C06": dict(ref="DESIGN.md 7 C06", note=TRUST + " The scheduler serialises storage verbs of the two actors (one verb at a time), i.e. the storage is sequentially consistent.",
                 text="Interlock.tla models backup and gc/delete at storage-verb granularity; TLC explores every interleaving (no preemption bound) "
                      "and proves NoLoss for the protocol the code follows (and refutes it for the protocol without the second lock check). On the "
@@ -1823,12 +1827,14 @@ MANIFEST_TEXT = {
                      "non-empty file; backup never overwrites, removes, or reuses a band id; gc removes only requested bands, unreferenced blocks, "
                      "its lock; readers never mutate). The race of two backups is model-checked in Interlock.tla and replayed under the scheduler: "
                      "one winner per band, the loser never writes under the winner's head. Two racing gcs are model-checked (Interlock with two "
-                     "gcs) and scheduled: a delete removes only its own lock."),
+                     "gcs) and scheduled: a delete removes only its own lock. Second backups over an existing archive are also made to fail at every "
+                     "write / create_dir and killed at every point (new blocks sharing d/xyz directories with old ones): nothing is removed or rewritten."),
     "C08": dict(ref="DESIGN.md 7 C08", note=TRUST + " Archives for this check are written by the harness's own encoder.",
                 text="MC_Stitch.tla: TLC enumerates ALL arrangements of up to 3 band slots (absent / head-less / incomplete / complete, ids with "
                      "gaps) x all hunk layouts of subsets of an order-exercising path alphabet and proves StitchOf equal to a declarative statement "
                      "of the rule, strictly increasing, duplicate-free, with correct provenance. The arrangements are written as real archives and "
-                     "the real iter_entries (every N, subtree and exclusion filters) is compared with Listing() by TLC."),
+                     "the real iter_entries (every N, subtree and exclusion filters) is compared with Listing() by TLC; a third of the arrangements carry "
+                     "old-style tails (no hunk count), which are complete all the same."),
     "C09": dict(ref="DESIGN.md 7 C09", note=TRUST + " Whether damage 'matters' is decided by the specification (RestoreOf before vs after the damage), and silence is excused only when the damaged archive is itself a state fault-free operation can produce (Format.tla).",
                 text="Healthy side: every archive state reached by random histories (interrupted-with-header backups, deletes, gcs) is "
                      "validated full and quick and must be silent. Damage side: every archive file (header, heads, hunks, blocks) x {delete, "
@@ -1846,7 +1852,7 @@ MANIFEST_TEXT = {
                      "over all triples, children-before-grandchildren, contiguity of everything below a directory, parent-first, on all paths of "
                      "bounded depth over an alphabet with bytes below and above '/', multi-byte names and shared prefixes. The real Apath::cmp on "
                      "ALL pairs of those paths, is_valid / FromStr / From<&str> on well- and ill-formed strings, and the order of the real source "
-                     "walk and of every written index are compared with the spec by TLC."),
+                     "walk and of every written index (also while the source changes under the backup) are compared with the spec by TLC."),
     "C12": dict(ref="DESIGN.md 7 C12", note=TRUST,
                 text="The real is_prefix_of on all pairs of the C11 path set against IsAncestorOrSelf; real subtree listings (S over existing "
                      "dirs, files, textual siblings, missing paths) and subtree restores (S over directories), on complete and stitched versions "
@@ -1860,11 +1866,13 @@ MANIFEST_TEXT = {
                 text="Trees with symlinks pointing at sentinel files and directories beside the destination (absolute, '..', through another "
                      "link, dangling), with varied link owners; restores into fresh, absent and pre-populated destinations, with subtree and "
                      "exclusion selections. A recursive lstat + content digest of everything outside the destination is taken before and after; "
-                     "TLC judges 'outside unchanged' and 'non-empty destination refused and untouched'."),
+                     "TLC judges 'outside unchanged' and 'non-empty destination refused and untouched' (the destination holding a file, a symlink to a "
+                     "sentinel or dangling, a fifo, an empty directory or file, under its own name, a name of the version, a hidden or undecodable name)."),
     "C17": dict(ref="DESIGN.md 7 C17", note=TRUST + " Byte identity is a harness fact (masking start_time/end_time); the specification contributes the decoded-state comparison and the history set.",
                 text="Each history (backups with varying settings, interrupted backups, deletes, gcs) is replayed into two (thorough: three) "
                      "fresh archives under different tokio runtime flavours (current_thread, multi_thread with 1, 2, 8 workers); the archive "
-                     "trees are compared byte for byte and the decoded states compared by TLC."),
+                     "trees are compared byte for byte and the decoded states compared by TLC. Replays also differ in start time and in how long one "
+                     "storage operation takes (31 s; thorough up to 125 s)."),
     "C18": dict(ref="DESIGN.md 7 C18", note=TRUST,
                 text="Diff.tla defines the set-theoretic difference with the classification of change.rs; MC_Diff proves the lock-step merge "
                      "equals it (and is path-ordered) for all bounded tree pairs. Real diff() streams (with and without include_unchanged, "
@@ -1878,7 +1886,8 @@ MANIFEST_TEXT = {
     "C14": dict(ref="DESIGN.md 7 C14", note=TRUST,
                 text="Block writes of real runs are the observation: TLC rejects any write to an existing non-empty path, requires that files "
                      "unchanged against the (stitched) basis reuse its addresses, that an unchanged tree writes no block, and that "
-                     "stats.written_blocks equals the observed count; resume is checked after every crash point of the interrupted run."),
+                     "stats.written_blocks equals the observed count; resume is checked after every crash point of the interrupted run, and of the second "
+                     "of two interrupted runs in a row."),
 }
 NOT_APPLICABLE = {}
 
